@@ -92,3 +92,18 @@ func init() {
 		return int64(0), true
 	})
 }
+
+func init() {
+	randN := func(m *machine, fr *frame, fn *ssa.Function, a []value) (value, bool) {
+		n := m.concInt(a[0], "rand.IntN")
+		if n <= 1 {
+			return int64(0), true
+		}
+		if n <= 4 {
+			return int64(m.choose(int(n), "rand.IntN")), true
+		}
+		return int64(0), true
+	}
+	reg("math/rand/v2.IntN", randN)
+	reg("math/rand.Intn", randN)
+}
